@@ -31,7 +31,9 @@ def module_tree(modname):
 
 
 class FuncInfo:
-    def __init__(self, key, mod, node, cls, src_segment, path):
+    def __init__(self, key, mod, node, cls, src_segment, path, enclosing=(), direct_method=False):
+        self.enclosing = list(enclosing)
+        self.direct_method = direct_method
         self.key = key            # "module:Qual.name"
         self.mod = mod
         self.node = node
@@ -53,6 +55,8 @@ def find_function(key):
     node = tree
     cls = None
     live = mod
+    enclosing = []
+    direct = False
     for i, p in enumerate(parts):
         found = None
         for ch in ast.walk(node) if isinstance(node, (ast.FunctionDef,)) else node.body:
@@ -61,6 +65,9 @@ def find_function(key):
                 break
         if found is None:
             raise KeyError(f"{key}: no definition named {p!r}")
+        direct = isinstance(node, ast.ClassDef)
+        if isinstance(node, ast.FunctionDef):
+            enclosing.append(node)
         node = found
         if isinstance(node, ast.ClassDef):
             live = getattr(live, p)
@@ -68,7 +75,7 @@ def find_function(key):
     if not isinstance(node, ast.FunctionDef):
         raise KeyError(f"{key} is not a function")
     seg = ast.get_source_segment(src, node) or ""
-    return FuncInfo(key, mod, node, cls, strip_segment(node), mod.__file__)
+    return FuncInfo(key, mod, node, cls, strip_segment(node), mod.__file__, enclosing, direct)
 
 
 def strip_segment(node):
